@@ -215,17 +215,13 @@ impl GenerationCache {
             message_type: &'a str,
         }
 
-        // Sort by (file, name): the discovery order follows HashMap iteration order
+        // Sort by file only, so that the hash does not depend on the order in which the files
+        // were visited. The sort is stable: the commands of one file keep their source order,
+        // which is the order the generated files follow
         let mut sorted_commands: Vec<&CommandInfo> = commands.iter().collect();
         sorted_commands.sort_by(|a, b| {
-            (
-                Self::relative_to_project(&a.file_path, project_path),
-                a.name.as_str(),
-            )
-                .cmp(&(
-                    Self::relative_to_project(&b.file_path, project_path),
-                    b.name.as_str(),
-                ))
+            Self::relative_to_project(&a.file_path, project_path)
+                .cmp(Self::relative_to_project(&b.file_path, project_path))
         });
 
         let hash_data: Vec<CommandHashData> = sorted_commands
